@@ -15,7 +15,8 @@ NNS_ALL = (1, 2, 4, 8, 16, 32)
 
 
 def tables(ctx):
-    return core.tables_dir(ctx, tuple(sorted({n // 2 for n in NNS_ALL if n >= 2} | {1})), NNS_ALL)
+    nns = NNS_ALL if ctx.quick else NNS_ALL + (64,)
+    return core.tables_dir(ctx, tuple(sorted({n // 2 for n in nns if n >= 2} | {1})), nns)
 
 
 def api_ob(tdir, api, nn, mt=0, avx=0, rsz=2, asz=2, asl=None, nrows=2, ncols=2, offs=0, flags=("--slice-formula",), tag="", timeout=None, arena=0, inplace=False):
